@@ -83,9 +83,33 @@ class Rt:
         return kw
 
 
-class _NullRt:
+class _Sink:
+    """absorbs anything"""
+
+    def __getattr__(self, name):
+        return _Sink()
+
+    def __call__(self, *a, **k):
+        return _Sink()
+
+    def __getitem__(self, k):
+        return _Sink()
+
+    def __setitem__(self, k, v):
+        pass
+
+    def __contains__(self, k):
+        return False
+
+    def __iter__(self):
+        return iter(())
+
+    def __bool__(self):
+        return False
+
+
+class _NullRt(_Sink):
     """stands in between scenarios: records made by coroutines that are finalised late go nowhere"""
-    busidx = {}
 
     def rec(self, kind, **kw):
         return kw
@@ -637,10 +661,9 @@ async def ext_task(x, prog, slots):
                 RT.rec('xAwaitBegin', x=x, e=c)
                 RT.blocked[x] = ('xAwaitHang', {'x': x, 'e': c})
                 try:
-                    r = await asyncio.wait_for(asyncio.shield(asyncio.ensure_future(_await_event(ev))), HORIZON)
+                    # no horizon here: a hang is established at quiescence (run_sc), never by elapsed virtual time
+                    r = await ev
                     RT.rec('xAwaitEnd', x=x, e=c, snap=evsnap(ev), same=(r is ev))
-                except TimeoutError:
-                    RT.rec('xAwaitHang', x=x, e=c)
                 except Exception as ex:
                     RT.rec('xAwaitRaise', x=x, e=c, why=type(ex).__name__)
                 finally:
@@ -650,21 +673,37 @@ async def ext_task(x, prog, slots):
             RT.rec('waitIdleBegin', x=x, b=op[1], bus=bussnap(b))
             RT.blocked[x] = ('waitIdleHang', {'x': x, 'b': op[1]})
             try:
-                await asyncio.wait_for(b.wait_until_idle(), HORIZON)
+                await b.wait_until_idle()
                 RT.rec('waitIdleEnd', x=x, b=op[1], bus=bussnap(b),
                        hstat=[e.event_status for e in b.event_history.values()])
-            except TimeoutError:
-                RT.rec('waitIdleHang', x=x, b=op[1])
             finally:
                 RT.blocked.pop(x, None)
 
 
+def quiet_window(sc):
+    """a stretch of virtual time longer than any silent period a scenario's programs can produce
+    (consecutive sleeps of one program, the largest timeout in use), so that "nothing recorded for that long" means rest"""
+    longest = 0.0
+    progs = [h['prog'] for h in sc['handlers']] + list(sc['tasks'])
+    for prog in progs:
+        tot = 0.0
+        for ins in prog:
+            if ins[0] == 'sleep':
+                tot += ins[1]
+            elif ins[0] == 'expect':
+                tot += max([x for x in ins[4:6] if isinstance(x, (int, float))] + [0])
+        longest = max(longest, tot)
+    tos = [t['timeout'] for t in sc['types'].values() if isinstance(t.get('timeout'), (int, float))]
+    return 1.0 + longest + (max(tos) if tos else 0.0)
+
+
 async def quiesce():
-    """let virtual time pass until nothing is recorded any more for one second (or the horizon is reached)"""
+    """let virtual time pass until nothing is recorded any more for a whole quiet window (or the horizon is reached)"""
     t0 = RT.now()
+    win = quiet_window(RT.sc)
     while RT.now() - t0 < HORIZON:
         n = len(RT.log)
-        await asyncio.sleep(1.0)
+        await asyncio.sleep(win)
         if len(RT.log) == n:
             return True
     return False
@@ -679,6 +718,8 @@ async def run_sc(sc):
         RT.buses.append(bus)
         if b.get('wal'):
             bus.wal_path = FaultyWalPath(i)
+    if isinstance(EventBus.all_instances, OrderedWeakSet):
+        EventBus.all_instances.order = sc.get('bus_order')
     RT.rec('init', nb=len(RT.buses))
     for k, h in enumerate(sc['handlers']):
         bus = RT.buses[h['bus']]
@@ -698,7 +739,9 @@ async def run_sc(sc):
     RT.xtasks = tasks
     done = False
     t0 = RT.now()
-    while not done and RT.now() - t0 < 3 * HORIZON:
+    while not done:
+        if RT.now() - t0 > 20 * HORIZON:
+            raise Budget()       # a scenario that never comes to rest: harness error, not a verdict
         quiet = await quiesce()
         done = quiet and all(t.done() for t in tasks)
         if quiet and not done:
@@ -724,9 +767,39 @@ async def run_sc(sc):
             pass
 
 
+class OrderedWeakSet:
+    """stand-in for EventBus.all_instances (a WeakSet, whose iteration order depends on memory addresses):
+    iterates in creation order, or in the permutation the scenario asks for, so that runs replay exactly"""
+
+    def __init__(self):
+        self._refs = []
+        self.order = None      # list of bus indices (positions in creation order) or None
+
+    def add(self, obj):
+        if not any(r() is obj for r in self._refs):
+            self._refs.append(weakref.ref(obj))
+
+    def discard(self, obj):
+        self._refs = [r for r in self._refs if r() is not None and r() is not obj]
+
+    def __contains__(self, obj):
+        return any(r() is obj for r in self._refs)
+
+    def __len__(self):
+        return sum(1 for r in self._refs if r() is not None)
+
+    def __iter__(self):
+        live = [r() for r in self._refs if r() is not None]
+        if self.order:
+            idx = getattr(RT, 'busidx', {})
+            rank = {b: i for i, b in enumerate(self.order)}
+            live.sort(key=lambda o: rank.get(idx.get(o, -1), len(rank)))
+        return iter(live)
+
+
 def reset_globals():
     svc._global_eventbus_lock = None
-    EventBus.all_instances = weakref.WeakSet()
+    EventBus.all_instances = OrderedWeakSet()
     hlp.GLOBAL_RETRY_SEMAPHORES.clear()
     if hasattr(hlp, 'GLOBAL_RETRY_SEMAPHORE_LOOPS'):
         hlp.GLOBAL_RETRY_SEMAPHORE_LOOPS.clear()
